@@ -11,14 +11,103 @@
   * metadata: `mlen` bytes; 1/2/4/8 bytes are one unsigned little-endian integer, any other length
     is that many single bytes.
 
-  The only things taken from the model are the *types* (`Chan`, `Sample`, `SVal`, `UserType`), the
-  type table lookup `dsfmtGet` (generated from `iparse.dsfmt_get`: size, struct code, fraction bits
-  and EParseDataType per channel type) and `itemAtoms` (what a struct item `n code` stands for).
-  Nothing here calls the struct interpreter or the stream codec.  Core Lean only.
+  The only things taken from the model are the *types* (`Chan`, `Sample`, `SVal`, `UserType`, `Dsfmt`,
+  `Atom`) and `itemAtoms` (what a struct item `n code` stands for).  The table of the standard sample
+  types (`stdTypes`) is written out here by hand from the NxScope documentation; nothing is read from the
+  generated type table `Gen.Types` — that the code's table IS this one is the theorem `table_is_standard`
+  (Lemmas/Stream.lean, restated in Props/C04 and Props/C15).  Nothing here calls the struct interpreter or
+  the stream codec.  Core Lean only.
 -/
 import NxsModel.Stream
 namespace Nxs.Spec.StreamWire
 open Nxs Nxs.Stream Nxs.Gen.Ids
+
+/-! ### the standard sample types (NxScope `enum nxscope_sample_dtype_e`), by hand -/
+
+/-- what a value of a standard type is -/
+inductive Kind where
+  | nodata    -- the data-less type (metadata only)
+  | uint      -- unsigned integer
+  | sint      -- two's complement integer
+  | float     -- IEEE 754 binary32 / binary64
+  | ufixed    -- unsigned fixed point: raw / 2^frac
+  | sfixed    -- signed fixed point: raw / 2^frac
+  | char      -- text bytes
+  deriving DecidableEq, Repr
+
+/-- one standard type: id on the wire, kind, bytes per value, fraction bits -/
+structure StdType where
+  ty : Nat
+  kind : Kind
+  width : Nat
+  frac : Nat
+  deriving DecidableEq, Repr
+
+/-- NONE and the 18 standard types: UINT8 INT8 UINT16 INT16 UINT32 INT32 UINT64 INT64 FLOAT DOUBLE
+    UB8 B8 UB16 B16 UB32 B32 CHAR WCHAR (ids 2..19; 0 is "undefined", 20..31 are user-defined) -/
+def stdTypes : List StdType := [
+  ⟨1, .nodata, 0, 0⟩,
+  ⟨2, .uint, 1, 0⟩, ⟨3, .sint, 1, 0⟩, ⟨4, .uint, 2, 0⟩, ⟨5, .sint, 2, 0⟩,
+  ⟨6, .uint, 4, 0⟩, ⟨7, .sint, 4, 0⟩, ⟨8, .uint, 8, 0⟩, ⟨9, .sint, 8, 0⟩,
+  ⟨10, .float, 4, 0⟩, ⟨11, .float, 8, 0⟩,
+  ⟨12, .ufixed, 2, 8⟩, ⟨13, .sfixed, 2, 8⟩, ⟨14, .ufixed, 4, 16⟩, ⟨15, .sfixed, 4, 16⟩,
+  ⟨16, .ufixed, 8, 32⟩, ⟨17, .sfixed, 8, 32⟩,
+  ⟨18, .char, 1, 0⟩, ⟨19, .char, 1, 0⟩]
+
+/-- the `struct` letter of a value of that kind and width -/
+def codeOf : Kind → Nat → Option Code
+  | .uint, 1 | .ufixed, 1 => some .B
+  | .uint, 2 | .ufixed, 2 => some .H
+  | .uint, 4 | .ufixed, 4 => some .I
+  | .uint, 8 | .ufixed, 8 => some .Q
+  | .sint, 1 | .sfixed, 1 => some .b
+  | .sint, 2 | .sfixed, 2 => some .h
+  | .sint, 4 | .sfixed, 4 => some .i
+  | .sint, 8 | .sfixed, 8 => some .q
+  | .float, 4 => some .f
+  | .float, 8 => some .d
+  | .char, 1 => some .s
+  | _, _ => none
+
+/-- numeric kinds are NUM, text is CHAR, the data-less type NONE (nxslib's `EParseDataType`) -/
+def dtypeOf : Kind → Nat
+  | .nodata => dtNONE
+  | .char => dtCHAR
+  | _ => dtNUM
+
+/-- numeric kinds carry a scale factor in nxslib's table (1 for integers, 1.0 for floats, 2^frac as a
+    float for fixed point); text and the data-less type carry none -/
+def hasScaleOf : Kind → Bool
+  | .nodata | .char => false
+  | _ => true
+
+/-- the scale factor is a Python float for floats and fixed point, the int 1 for integers -/
+def scaleIsFloatOf : Kind → Bool
+  | .float | .ufixed | .sfixed => true
+  | _ => false
+
+/-- the resolved format of a standard type -/
+def stdDsfmt (t : StdType) : Dsfmt :=
+  ⟨t.width, (match codeOf t.kind t.width with | some cd => [(1, cd)] | none => []), hasScaleOf t.kind, t.frac,
+   dtypeOf t.kind, false⟩
+
+/-- the type of a channel: a standard type from the hand-written table, else a user-defined type (one
+    "value" = the whole format string, size 1 × vdim), else unknown -/
+def typeGet (ty : Nat) (user : List UserType) : Except Err Dsfmt :=
+  match stdTypes.find? (·.ty = ty) with
+  | some t => .ok (stdDsfmt t)
+  | none =>
+    match user.find? (·.ty = ty) with
+    | some u => .ok ⟨1, u.items, false, 0, u.dtype, true⟩
+    | none => .error .keyError
+
+/-- the row of nxslib's type table (`iparse.dsfmt_get`, as generated into `Gen.Types.table`) that a
+    standard type must have -/
+def rowOf (t : StdType) : Gen.Types.Row :=
+  ⟨t.ty, t.width, codeOf t.kind t.width, hasScaleOf t.kind, t.frac, scaleIsFloatOf t.kind, dtypeOf t.kind⟩
+
+/-- what `Gen.Types.table` must be -/
+def standardTable : List Gen.Types.Row := stdTypes.map rowOf
 
 /-! ### values on the wire -/
 
@@ -81,15 +170,17 @@ def isText (d : Dsfmt) (natoms : Nat) : Bool := d.dtype = dtCHAR && natoms = 1
 
 /-- the constructor a decoded value must have: fixed-point types give `raw / 2^frac` with `frac` from
     the type table, other integers are plain, a CHAR type with a single value gives text, other
-    `s`/`c` items raw bytes, floats and bools themselves -/
+    `s`/`c` items raw bytes, floats and bools themselves.  A CHAR type whose single value is not bytes (a
+    user type declared `CHAR` with the format `"B"`, say) has no well-formed samples: there is no text in it
+    (the client raises AttributeError on such a configuration). -/
 def kindOk (d : Dsfmt) (natoms : Nat) (a : Atom) : SVal → Bool
   | .fixed _ fr => isIntCode a.code && isFixed d && fr = d.frac
-  | .int _ => isIntCode a.code && !isFixed d
+  | .int _ => isIntCode a.code && !isFixed d && !isText d natoms
   | .text _ => (a.code = .s || a.code = .c) && isText d natoms
   | .bytes _ => (a.code = .s || a.code = .c) && !isText d natoms
-  | .f32 _ => a.code = .f
-  | .f64 _ => a.code = .d
-  | .bool _ => a.code = .bool
+  | .f32 _ => a.code = .f && !isText d natoms
+  | .f64 _ => a.code = .d && !isText d natoms
+  | .bool _ => a.code = .bool && !isText d natoms
 
 /-- vector dimension allowed for the type: standard types need `vdim ≥ 1`, the data-less type
     `vdim = 0`; a user type's format must be exactly `vdim` bytes long -/
@@ -122,7 +213,7 @@ def wireSample (layout : List Chan) (user : List UserType) (s : Sample) : Option
   match layout[s.chan]? with
   | none => none                                              -- no such channel
   | some ch =>
-    match dsfmtGet ch.dtype user with
+    match typeGet ch.dtype user with
     | .error _ => none                                        -- channel type unknown
     | .ok d =>
       if s.chan ≤ 255 ∧ s.vdim = ch.vdim ∧ s.mlen = ch.mlen ∧ s.dtype = d.dtype ∧ dimOk d ch.vdim then
@@ -164,15 +255,50 @@ def carries (s : Sample) : Bool := !(s.data.isEmpty && s.mdata.isEmpty)
 /-- the sample the client must decode for a device-side sample: dtype ↦ EParseDataType of the
     type, text padded with NULs to the field length, everything else unchanged -/
 def decodedForm (user : List UserType) (s : Sample) : Sample :=
-  match dsfmtGet s.dtype user with
+  match typeGet s.dtype user with
   | .ok d => { s with dtype := d.dtype, data := padVals (dataAtoms d s.vdim) s.data }
   | .error _ => s
 
-/-- every data value is of the kind of its atom and, after NUL padding, encodable
-    (integers in range of the code, text / `s` bytes at most the field length) -/
+/-- `raw` is exactly a Python float (IEEE binary64): raw = ± m · 2^e with m < 2^53, i.e. the bits of |raw|
+    below its 53 most significant ones are all zero (`floatExact_iff` in Lemmas/Stream.lean).  A sample
+    value handed to the device-side encoder is a Python float; for a fixed-point channel that float is
+    raw / 2^frac, which is a float exactly when raw is (dividing by 2^frac only moves the exponent, and
+    no 64-bit raw with frac ≤ 32 leaves the exponent range). -/
+def floatExact (raw : Int) : Bool :=
+  raw.natAbs % 2 ^ (raw.natAbs.log2 + 1 - 53) = 0
+
+/-- a float32 signalling NaN: exponent all ones, mantissa non-zero, quiet bit (bit 22) clear -/
+def isSNaN32 (w : BitVec 32) : Bool :=
+  (w.toNat / 2 ^ 23) % 256 = 255 && w.toNat % 2 ^ 23 ≠ 0 && (w.toNat / 2 ^ 22) % 2 = 0
+
+/-- a float64 signalling NaN: exponent all ones, mantissa non-zero, quiet bit (bit 51) clear -/
+def isSNaN64 (w : BitVec 64) : Bool :=
+  (w.toNat / 2 ^ 52) % 2048 = 2047 && w.toNat % 2 ^ 52 ≠ 0 && (w.toNat / 2 ^ 51) % 2 = 0
+
+/-- the value exists as a Python object that can be handed to the encoder:
+    * a fixed-point value is the float raw / 2^frac, so raw must be exactly a float;
+    * text is a `str`, so its bytes are well-formed UTF-8;
+    * a float32 value is a Python float (a double) that `struct` narrows to binary32 — every binary32
+      pattern is the image of some double except the signalling NaNs (the IEEE narrowing conversion quiets
+      them);
+    * a float64 value: NaNs are carried through the device-side encoder as a class only — it multiplies
+      float samples by the scale 1.0, an arithmetic operation, which turns a signalling NaN into the quiet NaN
+      with the same payload; signalling patterns are therefore not values that round-trip bit for bit and are
+      excluded (every other pattern, quiet NaNs with any payload included, is unchanged by `x * 1.0`);
+    integers, bytes and bools always exist. -/
+def pyExact : SVal → Bool
+  | .fixed raw _ => floatExact raw
+  | .text bs => Utf8.valid bs
+  | .f32 w => !isSNaN32 w
+  | .f64 w => !isSNaN64 w
+  | _ => true
+
+/-- every data value is of the kind of its atom, exists as a Python value and, after NUL padding, is
+    encodable (integers in range of the code, text / `s` bytes at most the field length) -/
 def dataRep (d : Dsfmt) (natoms : Nat) : List Atom → List SVal → Bool
   | [], [] => true
-  | a :: as, v :: vs => kindOk d natoms a v && (encAtom a (padVal a v)).isSome && dataRep d natoms as vs
+  | a :: as, v :: vs =>
+    kindOk d natoms a v && pyExact v && (encAtom a (padVal a v)).isSome && dataRep d natoms as vs
   | _, _ => false
 
 /-- one in-range unsigned value per metadata atom -/
@@ -200,13 +326,13 @@ def RepFull (d : Dsfmt) (s : Sample) : Bool :=
     its values fit the type -/
 def Representable (user : List UserType) (s : Sample) : Prop :=
   carries s = false ∨
-    match dsfmtGet s.dtype user with
+    match typeGet s.dtype user with
     | .ok d => RepFull d s = true
     | .error _ => False
 
 instance (user : List UserType) (s : Sample) : Decidable (Representable user s) := by
   unfold Representable
-  cases dsfmtGet s.dtype user <;> exact inferInstance
+  cases typeGet s.dtype user <;> exact inferInstance
 
 /-- the layout agrees with the device-side samples that are streamed -/
 def LayoutAgrees (L : List Chan) (ss : List Sample) : Prop :=
